@@ -79,6 +79,16 @@ func vlaObs(v *rtp.VLA) string {
 	return s
 }
 
+// vlaFull renders every field, also the resolution fields of a VLA that carries none (a decode leaves them zero).
+func vlaFull(v *rtp.VLA) string {
+	s := vlaObs(v)
+	for _, l := range v.ActiveSpatialLayer {
+		s += fmt.Sprintf(" {%dx%d@%d}", l.Width, l.Height, l.Framerate)
+	}
+
+	return s
+}
+
 func checkC19(r *run, c *VLACase) (CaseInfo, error) {
 	var ci CaseInfo
 	v := c.lib()
@@ -187,6 +197,8 @@ func checkC19(r *run, c *VLACase) (CaseInfo, error) {
 				hx(want), hx(pb), n, err, obs, len(want), before); e != nil {
 				return ci, e
 			}
+		} else if used, fr := vlaFull(&dec), vlaFull(&fresh); used != fr {
+			return ci, failf("Unmarshal(%s) into a VLA that decoded %s before yields %s, a fresh receiver %s: fields of the earlier decode survive", hx(want), hx(pb), used, fr)
 		}
 	}
 
@@ -223,6 +235,13 @@ func checkC19Raw(r *run, c *VLARawCase) (CaseInfo, error) {
 			wantV := lc.lib()
 			if vlaObs(&v) != vlaObs(&wantV) && len(a.Layers) > 0 {
 				return ci, failf("Unmarshal(%s) = %s, reference decoder reads %s", hx(c.Raw), vlaObs(&v), vlaObs(&wantV))
+			}
+		}
+		if c.Prev != nil {
+			// what an accepted input decodes to must not depend on what the receiver decoded before
+			var fresh rtp.VLA
+			if fn, ferr := fresh.Unmarshal(clone(c.Raw)); ferr != nil || fn != n || vlaFull(&fresh) != vlaFull(&v) {
+				return ci, failf("Unmarshal(%s) into a VLA that decoded %s before = (%d) %s; a fresh receiver gives (%d,%v) %s", hx(c.Raw), hx(c.Prev), n, vlaFull(&v), fn, ferr, vlaFull(&fresh))
 			}
 		}
 	} else {
